@@ -281,6 +281,80 @@ def run(ctx):
              "calls that return, so this is recorded here and not reported")
     # zero-expected rule: positive example that must match on every run
     _positive_example(ctx)
+    ctx.attempt(lambda c: _r4(c, acquire, release))
+
+
+def _r4(ctx, acquire, release):
+    """Placeholders and level order.  (a) The acquire helper replaces exactly the None level names: the selection is an identity
+    test against None (a truthiness test would also replace names such as 0 or '', which the release helper then turns into
+    None: the operand's level name is lost and a shared level is cross joined).  (b) The release helper maps exactly the
+    placeholders back to None.  (c) Where the aligned pair is re-ordered, both results are re-ordered to the canonical level
+    order - identical index means identical level order."""
+    prog = ctx.prog
+    ctx.rule("R-C13-4", floor=3, what="only None names get placeholders; only placeholders are reset; both results are re-ordered to the canonical level order")
+    comp = [n for n in ast.walk(acquire.node) if isinstance(n, ast.ListComp)]
+    if len(comp) != 1 or not isinstance(comp[0].generators[0].target, ast.Name):
+        raise AnalysisError("%s: the comprehension building the new level names not found" % acquire.name)
+    v = comp[0].generators[0].target.id
+    e = comp[0].elt
+    ok = False
+    if isinstance(e, ast.IfExp) and isinstance(e.test, ast.Compare) and len(e.test.ops) == 1 and \
+            isinstance(e.test.left, ast.Name) and e.test.left.id == v and isinstance(e.test.comparators[0], ast.Constant) and \
+            e.test.comparators[0].value is None:
+        keep, new = (e.body, e.orelse) if isinstance(e.test.ops[0], ast.IsNot) else \
+            ((e.orelse, e.body) if isinstance(e.test.ops[0], ast.Is) else (None, None))
+        ok = keep is not None and isinstance(keep, ast.Name) and keep.id == v and isinstance(new, ast.Call)
+    if ok:
+        ctx.holds(acquire, comp[0], "placeholder only for names that are None (identity test); every other name is kept")
+    else:
+        ctx.violated(acquire, comp[0], "the level names that get a placeholder are selected by %s, not by an identity test against "
+                     "None: names such as 0 or '' would be replaced and later reset to None" % norm_text(e), text="none-name selection")
+    comp = [n for n in ast.walk(release.node) if isinstance(n, ast.ListComp)]
+    ok = False
+    if len(comp) == 1 and isinstance(comp[0].elt, ast.IfExp) and isinstance(comp[0].generators[0].target, ast.Name):
+        v = comp[0].generators[0].target.id
+        e = comp[0].elt
+        tokens = [p_ for p_ in release.params][-1]
+        t = e.test
+        if isinstance(t, ast.Compare) and len(t.ops) == 1 and isinstance(t.left, ast.Name) and t.left.id == v and \
+                isinstance(t.comparators[0], ast.Name) and t.comparators[0].id == tokens:
+            if isinstance(t.ops[0], ast.In):
+                ok = isinstance(e.body, ast.Constant) and e.body.value is None and isinstance(e.orelse, ast.Name) and e.orelse.id == v
+            elif isinstance(t.ops[0], ast.NotIn):
+                ok = isinstance(e.orelse, ast.Constant) and e.orelse.value is None and isinstance(e.body, ast.Name) and e.body.id == v
+    if ok:
+        ctx.holds(release, comp[0], "exactly the placeholders are reset to None, every other name is kept")
+    else:
+        ctx.violated(release, comp[0] if comp else release.node, "the release helper does not reset exactly the placeholder names to None",
+                     text="placeholder reset")
+    # symmetric re-ordering of the aligned pair
+    n = 0
+    for key, fi in prog.functions.items():
+        if fi.module.name != MOD:
+            continue
+        rets = [s_ for s_ in fi.node.body if isinstance(s_, ast.Return) and isinstance(s_.value, ast.Tuple) and
+                len(s_.value.elts) == 2 and all(isinstance(x, ast.Name) for x in s_.value.elts)]
+        if not rets:
+            continue
+        pair = {x.id for x in rets[-1].value.elts}
+        for blk in [s_ for s_ in walk_function(fi.node) if isinstance(s_, ast.If)]:
+            re = {}
+            for st in blk.body:
+                if isinstance(st, ast.Assign) and isinstance(st.targets[0], ast.Name) and st.targets[0].id in pair and \
+                        isinstance(st.value, ast.Call) and isinstance(st.value.func, ast.Attribute) and \
+                        st.value.func.attr == "reorder_levels":
+                    re[st.targets[0].id] = st
+            if not re:
+                continue
+            n += 1
+            if set(re) == pair:
+                ctx.holds(fi, blk, "%s: both results (%s) are re-ordered to the canonical level order" % (fi.name, ", ".join(sorted(pair))))
+            else:
+                ctx.violated(fi, blk, "%s: only %s is re-ordered to the canonical level order, %s keeps whatever order align() "
+                             "produced: the two results do not share an identical index" %
+                             (fi.name, ", ".join(sorted(re)), ", ".join(sorted(pair - set(re)))), text="asymmetric reorder")
+    if n == 0:
+        raise AnalysisError("no re-ordering of an aligned pair found")
 
 
 def _positive_example(ctx):
@@ -314,6 +388,33 @@ F2F = "Broadcaster._broadcast_frame_to_frame"
 
 def variants():
     out = []
+
+    def truthy_names(tree):
+        f = find_func(tree, "_replace_none_index_names_with_unique_string")
+        for n in ast.walk(f):
+            if isinstance(n, ast.ListComp):
+                n.elt = ast.parse("name or make_uuid()", mode="eval").body
+                return True
+        return False
+    out.append(witness("placeholder for every falsy level name", PATH, truthy_names, "R-C13-4"))
+
+    def reorder_prm_only(tree):
+        f = find_func(tree, F2F)
+        for n in ast.walk(f):
+            if isinstance(n, ast.If) and any(isinstance(x, ast.Assign) and "reorder_levels" in ast.unparse(x) for x in n.body):
+                n.body = [x for x in n.body if not (isinstance(x, ast.Assign) and x.targets[0].id == "obj")]
+                return len(n.body) == 1
+        return False
+    out.append(witness("only the parameter is re-ordered after align", PATH, reorder_prm_only, "R-C13-4"))
+
+    def none_test_swapped(tree):
+        f = find_func(tree, "_replace_none_index_names_with_unique_string")
+        for n in ast.walk(f):
+            if isinstance(n, ast.ListComp):
+                n.elt = ast.parse("make_uuid() if name is None else name", mode="eval").body
+                return True
+        return False
+    out.append(twin("placeholder selection written with `is None`", PATH, none_test_swapped))
 
     def drop_param(tree):
         f = find_func(tree, F2F)
